@@ -22,7 +22,9 @@ V4S = ["null", "n1", "sa", "sb"]
 V6 = ["null", "T", "n1", "n2", "sa", "sb"]
 V8 = ["null", "F", "T", "n1", "n2", "n1h", "sa", "sb"]
 VD4 = ["miss", "null", "n1", "sa"]
+VD6 = ["miss", "null", "n1", "n2", "sa", "sb"]
 VD7 = ["miss", "null", "T", "n1", "n2", "sa", "sb"]
+V5T = ["null", "T", "n1", "sa", "sb"]
 KIND = {"null": "nil", "miss": "nil", "F": "bool", "T": "bool", "i0": "int", "i1": "int", "i2": "int",
         "nm1": "float", "n0": "float", "n1": "float", "n1h": "float", "n2": "float", "n10": "float",
         "se": "string", "s10": "string", "sa": "string", "sb": "string"}   # labels for signatures only
@@ -31,6 +33,7 @@ KIND = {"null": "nil", "miss": "nil", "F": "bool", "T": "bool", "i0": "int", "i1
 # leaving the unused positions absent ("miss") in every key: two absent values compare equal under every semantics,
 # so the padded positions never decide and never mismatch.
 TRACE_NF, TRACE_DESC = 3, [2]
+MAX_REPORTS = 6        # distinct unexplained signatures written out as replay files per run
 
 
 class Sess:
@@ -69,6 +72,15 @@ def design(c, name, consts, invariants, view, workers=4, timeout=900, coverage=F
     cfgname = "KeyOrder_%s.cfg" % name
     return c.tlc_must_pass("KeyOrder", cfgname, workers=workers, timeout=timeout, coverage=coverage,
                            files={cfgname: kl.cfg_text("Spec", consts, invariants=invariants, view=view)}, tag=name)
+
+
+def action_coverage(res):
+    """<Action line .. of module KeyOrder (..)>: distinct:total  (vlib's parser misses the form with a location suffix)"""
+    import re
+    out = {}
+    for m in re.finditer(r"^<(\w+) line \d+, col \d+ to line \d+, col \d+ of module KeyOrder(?: \([\d ]+\))?>: (\d+):(\d+)", res.out, re.M):
+        out[m.group(1)] = (int(m.group(2)), int(m.group(3)))
+    return out
 
 
 def beh_to_ops(b, inst):
@@ -168,8 +180,10 @@ def classify(c, mode, traces, sess_of, stats):
             # store level: classified by scenario (the memory model has no B-tree)
             sig = "store:%s:%s" % (name, v["ax"])
         elif any(w in diff for w in where) or not any(w in mism for w in where):
-            kinds = ",".join("%s/%s" % (KIND[a], KIND[b]) for a, b in zip(ev["x"], ev["y"]) if (a, b) != ("miss", "miss"))
-            sig = "unexplained:%s:%s:%s:%s" % (v["ax"], s.mode, "".join("d" if d else "a" for d in s.descs), kinds)
+            # kinds of the first field in which the two keys differ (for x = y: of the first field)
+            dif = [(a, b) for a, b in zip(ev["x"], ev["y"]) if a != b] or [(ev["x"][s.pos[0] - 1], ev["y"][s.pos[0] - 1])]
+            sig = "unexplained:%s:%s:%s:%s/%s" % (v["ax"], s.mode, "".join("d" if d else "a" for d in s.descs),
+                                                  KIND[dif[0][0]], KIND[dif[0][1]])
         else:
             m = sorted(mism[max(w for w in where if w in mism)])[0]   # [field, remembered kind, kind of x, kind of y]
             later = m[2] if m[2] != m[1] else m[3]
@@ -186,13 +200,17 @@ def classify(c, mode, traces, sess_of, stats):
                                 events=evs if store else evs[lo:ei + 1],
                                 involved_events=[traces[t][1][e] for t, e in where],
                                 model_mismatch=[mism.get(w) for w in where], model_diff=[diff.get(w) for w in where])
-    for sig in sorted(by_sig):
+    for sig in sorted(by_sig, key=lambda g: (-by_sig[g]["count"], g)):
         d = by_sig[sig]
+        stats["signatures"][sig] = stats["signatures"].get(sig, 0) + d["count"]
+        if stats["reported"] >= MAX_REPORTS and not sig.startswith(("field-kind-memory:", "field-list-memory:", "store:")):
+            stats["suppressed"] += 1          # already a violation; keep the number of replay files small
+            continue
         what = "%s contradicted %d times (%s); e.g. %s" % (
             sig, d["count"], ", ".join("%s x%d" % kv for kv in sorted(d["axioms"].items())),
             json.dumps(d["example"]["involved_events"])[:400])
-        c.report(sig, what, d)
-        stats["signatures"][sig] = stats["signatures"].get(sig, 0) + d["count"]
+        if c.report(sig, what, d):
+            stats["reported"] += 1
 
 
 # ---------------------------------------------------------------------------------------------- store scenarios
@@ -247,19 +265,21 @@ def store_scenarios(rng, thorough):
 
 def run(c):
     rng = random.Random(c.seed)
-    stats = dict(events=0, contradictions=0, model_diffs=0, signatures={})
+    stats = dict(events=0, contradictions=0, model_diffs=0, signatures={}, reported=0, suppressed=0)
     inv_mc = ["TypeOK", "SameAnswerUniform", "NaturalOnUniform", "InstancePreorder", "EmitWitness"]
     # ------------------------------------------------------------------ 1. design level (TLC exhaustive)
     if c.quick:
         r_mc = design(c, "mc", kl.design_consts(V4, 2, [2], "indexspec", "memory", [1, 2], 3, "both"), inv_mc, "View")
     else:   # the committed configuration (8 values), with coverage
         r_mc = c.tlc_must_pass("KeyOrder", "KeyOrder_mc.cfg", workers=6, timeout=2400, coverage=True, tag="mc")
-        zero = [a for a, (d, t) in r_mc.coverage.items() if t == 0 and a in ("New", "CmpUniform", "CmpMismatch", "Init")]
-        if zero or not all(a in r_mc.coverage for a in ("New", "CmpUniform", "CmpMismatch")):
-            raise vlib.InfraError("vacuity: actions never taken in KeyOrder_mc.cfg: %s / %s" % (zero, r_mc.coverage))
+        cov = action_coverage(r_mc)
+        zero = [a for a in ("Init", "New", "CmpUniform", "CmpMismatch") if cov.get(a, (0, 0))[1] == 0]
+        if zero:
+            raise vlib.InfraError("vacuity: actions never taken in KeyOrder_mc.cfg: %s (%s)" % (zero, cov))
+        r_mc.coverage = cov
     # default comparer: two instances in the thorough tier; one instance (behaviours only) in the quick tier, where
     # cross-instance agreement is still decided on the real answers by the property-level trace validation
-    r_mcd = design(c, "mcdef", kl.design_consts(c.pick(VD4, VD7), 2, [], "default", "memory", c.pick([1], [1, 2]), 3, "both"),
+    r_mcd = design(c, "mcdef", kl.design_consts(c.pick(VD4, VD6), 2, [], "default", "memory", c.pick([1], [1, 2]), 3, "both"),
                    inv_mc, "View")
     # repaired design: SameAnswer and natural order hold unconditionally, the finding action is never enabled
     dyn = [("indexspec", V8, [2])] + ([] if c.quick else [("default", VD7, [])])
@@ -291,7 +311,7 @@ def run(c):
     add_behaviours(Sess("beh2", "indexspec", [0, 1]), [b[0] for b in kl.printed(r_mc, "BEH")])
     add_behaviours(Sess("behdef", "default", [0, 0]), [b[0] for b in kl.printed(r_mcd, "BEH")])
     # full histories <= MaxHist of one instance, one field: per-instance preorder checked by TLC on every history
-    hist_runs = [("h1asc", "indexspec", [0], c.pick(V4S, V6), 3)]
+    hist_runs = [("h1asc", "indexspec", [0], c.pick(V4S, V5T), 3)]
     if not c.quick:
         hist_runs += [("h1desc", "indexspec", [1], V8, 2), ("h1def", "default", [0], VD7, 2)]
     for name, mode, descs, vs, mh in hist_runs:
@@ -365,6 +385,7 @@ def run(c):
         evaluations=ncmp + nscan, distinct_nontrivial=len(distinct),
         events_validated=stats["events"], contradictions_found=stats["contradictions"],
         contradictions_by_signature=stats["signatures"], model_vs_code_differences=stats["model_diffs"],
+        violation_signatures_not_written_out=stats["suppressed"],
         rule="one evaluation = one Compare(x, y) answered by a real jsondb comparer object (or one store scan); a case is a (comparer configuration, history, probe pair) and is non-trivial when the two probe keys differ; distinct by the full JSON of configuration, history and probe. Exhaustive = every memory state of the model and every comparison from it within the stated constants.",
         coverage_actions={k: v for k, v in r_mc.coverage.items()} if r_mc.coverage else None,
     ))
